@@ -460,8 +460,8 @@ func stripFirstNow(s string) string {
 
 func init() {
 	register(&Property{ID: "C02", Gen: genC02, Replay: replayHist,
-		Rule: "all sequences of units over the 13-letter alphabet {tx/XID, tx/COMMIT, tx/ROLLBACK, DDL, autocommitted rows, statement DML, rotation, GTID, anonymous GTID, previous-GTIDs, heartbeat, unknown event, unknown statement} up to length 3 (quick) / 4 (thorough), random sequences up to 40, all 2^5+2^6+2^8 casings of begin/commit/rollback; oracle = Spec `expected` plus invariance under deletion of ignorable units. Non-trivial: >= 2 units and >= 1 commit point",
-		Extra: func(c *Collector, r *RNG, tier string) {}})
+		Rule: "all sequences of units over the 13-letter alphabet {tx/XID, tx/COMMIT, tx/ROLLBACK, DDL, autocommitted rows, statement DML, rotation, GTID, anonymous GTID, previous-GTIDs, heartbeat, unknown event, unknown statement} up to length 3 (quick) / 4 (thorough), random sequences up to 40, all 2^5+2^6+2^8 casings of begin/commit/rollback; oracle = Spec `expected` plus invariance under deletion of ignorable units; ignorable events (heartbeat, GTID, anonymous GTID, previous-GTIDs, STOP, USER_VAR, XA_PREPARE and unknown type codes) injected at every position of a history, also inside transactions: the deliveries must not change. Non-trivial: >= 2 units and >= 1 commit point",
+		Extra: extraC02})
 	register(&Property{ID: "C03", Gen: genC03, Replay: replayHist,
 		Rule: "histories with 1..4 binlog files, one in five relocated to offsets beyond 2^31 / close to 2^32 (bias), one in six started at the empty file name (oldest binlog); label chain checked; every delivered end label used as the start of a fresh parse (and, stream level, a fresh Stream) whose deliveries must equal the remaining expected transactions with identical labels. Non-trivial: >= 3 units",
 		Extra: func(c *Collector, r *RNG, tier string) { extraStreamC03(c, r, tier) }})
@@ -472,3 +472,51 @@ func init() {
 
 var extraStreamC03 = func(c *Collector, r *RNG, tier string) {}
 var extraStreamC04 = func(c *Collector, r *RNG, tier string) {}
+
+// extraC02: "ignorable events never alter the grouping" also INSIDE a transaction (the Spec grammar has units only
+// between transactions): one ignorable packet is injected at a random index of the served stream — between BEGIN and
+// its rows, between a TABLE_MAP and its rows event, before the commit event, … The handler must see exactly what it
+// sees without the packet, with the same labels (an ignorable event does not move the position).
+func extraC02(col *Collector, r *RNG, tier string) {
+	n := 200
+	if tier == "thorough" {
+		n = 4000
+	}
+	o := histOpts{maxUnits: 5, maxStmts: 3, maxRows: 2, maxCols: 5, maxTables: 2, files: true, ignorable: true}
+	var cs []Case
+	for i := 0; i < n; i++ {
+		h := genHistory(r, o, allCfgs[i%len(allCfgs)])
+		start := h.startFile()
+		base, err := theDriver.Ask(h.line(posStr(start, 4)))
+		if err != nil {
+			continue
+		}
+		bf := fields(base)
+		npk := len(splitPackets(bf["packets"]))
+		if npk < 3 {
+			continue
+		}
+		typ := r.Pick(27, 33, 34, 35, 3, 14, 38, 36, 37, 39, 40, 160, 255, 0, 1, 6, 7, 8, 9, 10, 11, 12, 17, 18, 20, 21, 22)
+		body := r.Bytes(r.Intn(44))
+		pk := mkEvent(byte(typ), body, h.cfg[0] == '1')
+		// an arbitrary next_position: ignorable events must not move the position
+		np := uint32(r.U64())
+		pk[13], pk[14], pk[15], pk[16] = byte(np), byte(np>>8), byte(np>>16), byte(np>>24)
+		at := 2 + r.Intn(npk-1)
+		want := "nil@" + bf["endpos"] + "#" + bf["spec"]
+		line := h.line(posStr(start, 4), fmt.Sprintf("inject=%d:%s", at, hx(pk)))
+		hh := h
+		cs = append(cs, Case{Line: line, Class: fmt.Sprintf("ignorable-type-%d-injected", typ), Nontrivial: true, Run: func(resp map[string]string) Outcome {
+			impl, calls, _ := runParse(hh, splitPackets(resp["packets"]), start, 4, -1, "", false)
+			out := Outcome{Impl: normCrash(impl), Model: normCrash(resp["model"]), Spec: want, OracleOK: true}
+			out.CorrOK = out.Impl == out.Model
+			if impl != want {
+				out.OracleOK = false
+				out.FindingKey = "ignorable-inside"
+				out.Note = "an ignorable event injected into the stream changed what was delivered: " + firstDiff(calls, strings.Split(bf["spec"], "&"), impl, want)
+			}
+			return out
+		}})
+	}
+	runCases(col, theDriver, cs)
+}
